@@ -607,6 +607,10 @@ pub struct BlockingCase {
     pub ms: u16,
     pub cap: u8,
     pub prefill: u8,
+    /// a timeout at the far end of `Duration` instead of `ms` (only against a live receiver, where the call
+    /// completes on its own): 1 = Duration::MAX, 2 = u64::MAX seconds, 3 = i64::MAX seconds, 4 = 2^62 seconds
+    #[serde(default)]
+    pub huge: u8,
 }
 
 pub fn blocking_case() -> impl Strategy<Value = BlockingCase> {
@@ -618,8 +622,9 @@ pub fn blocking_case() -> impl Strategy<Value = BlockingCase> {
         prop_oneof![Just(0u16), 1u16..40, Just(300u16)],
         1u8..4,
         0u8..6,
+        prop_oneof![3 => Just(0u8), 2 => 1u8..5],
     )
-        .prop_map(|(ctx, recv, flush, tokio_entry, ms, cap, prefill)| BlockingCase { ctx, recv, flush, tokio_entry, ms, cap, prefill })
+        .prop_map(|(ctx, recv, flush, tokio_entry, ms, cap, prefill, huge)| BlockingCase { ctx, recv, flush, tokio_entry, ms, cap, prefill, huge: if recv == RecvState::Live { huge } else { 0 } })
 }
 
 /// The call must return (no panic, no deadlock): `true`/`Ok` when the work completed, `false`/`Err(item)`
@@ -663,12 +668,21 @@ pub fn check_blocking(c: &BlockingCase, cx: &mut Cx) -> vcore::Res {
         RecvState::Dropped => "recv:dropped",
     });
     cx.nontrivial(c.ctx != Ctx::PlainThread || c.recv != RecvState::Live);
+    let huge = c.recv == RecvState::Live && c.huge != 0;
+    cx.class_if(huge, "timeout:far-end-of-duration");
+    cx.class_if(huge && !c.flush && c.prefill >= c.cap, "timeout:far-end-of-duration/blocking-send-on-full-channel");
 
     let call = {
         let sender = sender.clone();
-        let (flush, tokio_entry, ms) = (c.flush, c.tokio_entry, c.ms);
+        let (flush, tokio_entry, ms, huge) = (c.flush, c.tokio_entry, c.ms, if c.recv == RecvState::Live { c.huge } else { 0 });
         move || -> Result<bool, Option<u64>> {
-            let d = Duration::from_millis(ms as u64);
+            let d = match huge {
+                0 => Duration::from_millis(ms as u64),
+                1 => Duration::MAX,
+                2 => Duration::from_secs(u64::MAX),
+                3 => Duration::from_secs(i64::MAX as u64),
+                _ => Duration::from_secs(1 << 62),
+            };
             if flush {
                 Ok(if tokio_entry { emit_batcher::tokio::blocking_flush(&sender, d) } else { emit_batcher::sync::blocking_flush(&sender, d) })
             } else {
@@ -720,7 +734,13 @@ pub fn check_blocking(c: &BlockingCase, cx: &mut Cx) -> vcore::Res {
                 Ok(())
             }
         }
-        Some(Ok(Ok(_))) => Ok(()),
+        Some(Ok(Ok(done))) => {
+            if huge && !done {
+                Err(Fail::new("C08/unbounded-flush-gave-up", format!("{c:?}: a flush with a practically unbounded timeout against a live receiver returned false")))
+            } else {
+                Ok(())
+            }
+        }
     };
     if let Ok(s) = Arc::try_unwrap(sender) {
         drop(s);
